@@ -8,6 +8,7 @@ pub mod c05;
 pub mod c06;
 pub mod c07;
 pub mod c08;
+pub mod c09;
 pub mod c10;
 pub mod c11;
 pub mod c12;
@@ -29,6 +30,7 @@ pub fn run(id: &str, tier: Tier) -> Option<Report> {
         "C06" => c06::run(tier),
         "C07" => c07::run(tier),
         "C08" => c08::run(tier),
+        "C09" => c09::run(tier),
         "C10" => c10::run(tier),
         "C11" => c11::run(tier),
         "C12" => c12::run(tier),
@@ -46,6 +48,7 @@ pub fn run(id: &str, tier: Tier) -> Option<Report> {
 pub fn worker(kind: &str) -> ! {
     match kind {
         "c04" => crate::engine::worker_main(c04::worker_subject),
+        "c09" => crate::engine::worker_main(c09::worker_subject),
         "c15" => crate::engine::worker_main(c15::worker_subject),
         _ => {
             eprintln!("unknown worker kind {kind}");
@@ -70,6 +73,7 @@ pub fn replay(path: &str) -> i32 {
         "C03" => c03::replay(case),
         "C04" => c04::replay(case),
         "C11" => c11::replay(case),
+        "C09" => c09::replay(case),
         "C12" => c12::replay(case),
         "C15" => c15::replay(case),
         "C16" => c16::replay(case),
